@@ -118,11 +118,12 @@ Definition cret (m : kmem) (t : nat) (c : cc) (v : Z) : kmem * list Z * stack cc
   end.
 
 (* A failed pop inside do_maintenance (the deferred unlock of the user mutex finds
-   its waiter announced but not yet linked) yields with manager->current_fiber =
-   the maintenance fiber, whose state (not registered) is RUNNING: that yield is
-   only the fiber_scheduler_next point and returns.  T1K.kstep models the yield
-   of a failed pop as a yield of fiber t itself (right outside maintenance, the
-   only case its other clients reach); the difference is overridden here.
+   its waiter announced but not yet linked) calls fiber_manager_yield with
+   manager->current_fiber = the maintenance fiber (state RUNNING, not registered):
+   that yield returns at once (cpu_relax, no scheduling point on T1, repo commit
+   9f9cf90) and the wake loop retries the pop.  T1K.kstep models the yield of a
+   failed pop as a yield of fiber t itself (right outside maintenance, the only
+   case its other clients reach); the difference is overridden here.
    We are inside do_maintenance iff an MSlots continuation is on the stack. *)
 Definition is_mslots (f : frame cc) : bool := match f with MSlots => true | _ => false end.
 Definition in_maint (r : stack cc) : bool := existsb is_mslots r.
@@ -132,7 +133,10 @@ Definition kstepC (m : kmem) (t : nat) (s : stack cc) : kmem * list Z * stack cc
   | KNext q cnt wc h :: r =>
       match nnext m h with
       | O => if (0 <? cnt) && in_maint r
-             then (m, ev t (l_next h) 9 0, YNext ST_RUNNING :: KSpin q cnt wc :: r)
+             then match kloop cc q cnt wc with
+                  | Some k => (m, ev t (l_next h) 9 0, k :: r)
+                  | None => let '(m1, e1, s1) := ret cc cret m t wc r in (m1, ev t (l_next h) 9 0 ++ e1, s1)
+                  end
              else kstep cc cret m t s
       | S _ => kstep cc cret m t s
       end
